@@ -59,7 +59,7 @@ CHECKS = {
  "C18": ("Real block-root-to-slot cache with the real scheduler (cleaning job) and chaintime over stub event and header providers: block events, hits, misses, concurrent misses, fetch failures/late answers, lookups at the edges of the retention window across cleaning runs. Oracle: reference map; a lookup returns that root's slot or an error iff its fetch failed; entries inside the retention window are still hits.",
          "events and header providers are stubs; retention window taken from the cache's own comment (64 epochs)",
          TECH + "reference-map oracle"),
- "C20": ("Whole-system simulation run for 21 epochs with steady duties: warm-up, measured window A, fault storm (reorgs withdrawing duties, missed slots), quiet epochs, measured window B at the same phase of the sync committee period. Oracle: size of each bookkeeping structure named in the property (read reflectively) and the live task count at B do not exceed A; HasPendingAttestations(slot) equals 'an attestation job for the slot is outstanding' (from the scheduler seam) at every settled point. Also: a node that never answers (no client timeout), head-root failures (measured one period later), goroutines stalled after ScheduleJob, attestation jobs outlasting the next head event.",
+ "C20": ("Whole-system simulation run for 21 epochs with steady duties: warm-up, measured window A, fault storm (reorgs withdrawing duties, missed slots), quiet epochs, measured window B at the same phase of the sync committee period. Oracle: size of each bookkeeping structure named in the property (read reflectively) and the live task count at B do not exceed A; HasPendingAttestations(slot) equals 'an attestation job for the slot is outstanding' (from the scheduler seam) at every settled point. Also: a node that never answers (no client timeout), head-root failures (measured one period later), goroutines stalled after ScheduleJob, attestation jobs outlasting the next head event. Strategy goroutines: each of the 14 strategy scenarios of C07 re-judged for one thing only - after every call returned, the timeout passed and every node answered or was cancelled, no goroutine started by the strategy is left.",
          "sizes are read through reflection on unexported fields (a renamed field is harness trouble, exit 2); 12 epochs of warm-up define the accepted fixed window",
          TECH + "steady-state comparison at equal period phase + pending-mark model"),
 }
